@@ -380,4 +380,67 @@ Proof.
   intros H; inversion H; subst. repeat split; auto; rewrite <- I0; destruct st0; reflexivity.
 Qed.
 
+
+(* ... nor does it touch the done flag or the set of locally ended streams *)
+Lemma hcf_frame2 : forall c t d c', handle_control_frame fx c t d = Val c' ->
+  c_done c' = c_done c /\ c_sent_end c' = c_sent_end c.
+Proof.
+  intros c t d c'. destruct c as [cl dg dn st ct qd qe mp ss se]. unfold handle_control_frame, set_settings, set_maxpush.
+  cbn [c_client c_dgram c_done c_settings c_ctrl c_qdec c_qenc c_maxpush c_streams c_sent_end].
+  destruct (negb (t =? 4) && is_none st); [discriminate|].
+  destruct (t =? 4).
+  { destruct (negb (is_none st)); [discriminate|]. destruct (parse_settings _ fx d []); try discriminate.
+    destruct (validate_settings dg a); [|discriminate]. intros H; inversion H; subst. split; reflexivity. }
+  destruct (t =? 13).
+  { destruct cl; [discriminate|]. destruct (parse_max_push_id fx d); try discriminate. intros H; inversion H; subst. split; reflexivity. }
+  destruct ((t =? 0) || (t =? 1) || (t =? 5) || (t =? 14)); [discriminate|]. intros H; inversion H; subst. split; reflexivity.
+Qed.
+
+Lemma ctrl_frame2 : forall f c b c' r, ctrl_loop fx f c b = CStop c' r -> c_done c' = c_done c /\ c_sent_end c' = c_sent_end c.
+Proof.
+  induction f; intros c b c' r H; cbn [ctrl_loop] in H; [inversion H; split; reflexivity|].
+  destruct (pull_frame b) as [[[ft fd] b']|]; [|inversion H; split; reflexivity].
+  destruct (handle_control_frame fx c ft fd) as [c2| |] eqn:E; try discriminate.
+  apply hcf_frame2 in E. apply IHf in H. destruct E, H. split; congruence.
+Qed.
+
+Lemma typed_frame2 : forall st c b t b1 c', typed_of st c b = Some (inl (t, b1, c')) ->
+  c_done c' = c_done c /\ c_sent_end c' = c_sent_end c.
+Proof.
+  intros st c b t b1 c'. unfold typed_of. destruct (s_stype st); [intros H; inversion H; split; reflexivity|].
+  destruct (pull_uint_var b) as [[t' b']|]; [|discriminate].
+  destruct c as [cl dg dn se ct qd qe mp ss sn]. unfold set_ctrl, set_qdec, set_qenc.
+  cbn [c_client c_dgram c_done c_settings c_ctrl c_qdec c_qenc c_maxpush c_streams c_sent_end].
+  destruct (t' =? 0); [destruct (is_none ct); intros H; inversion H; split; reflexivity|].
+  destruct (t' =? 3); [destruct (is_none qd); intros H; inversion H; split; reflexivity|].
+  destruct (t' =? 2); [destruct (is_none qe); intros H; inversion H; split; reflexivity|].
+  intros H; inversion H; split; reflexivity.
+Qed.
+
+Lemma uni_full_frame2 : forall st c d fin e st' c' u, uni_full fx O st c d fin = UF e st' c' u ->
+  c_done c' = c_done c /\ c_sent_end c' = c_sent_end c.
+Proof.
+  intros st c d fin e st' c' u. rewrite uni_full_spec. unfold uni_spec. cbv zeta.
+  destruct (negb (stream_loops (s_stype st) || negb (is_nil (s_buf st ++ d)))).
+  { intros H; inversion H; subst. split; reflexivity. }
+  destruct (typed_of (ustart st d fin) c (s_buf st ++ d)) as [[[[t b1] c2]|[]]|] eqn:Et; try discriminate.
+  2:{ intros H; inversion H; subst. split; reflexivity. }
+  apply typed_frame2 in Et. destruct Et as (T1 & T2).
+  set (st0 := ustart st d fin) in *. clearbody st0.
+  unfold tspec. cbv zeta.
+  destruct (t =? 0).
+  { destruct fin; [discriminate|]. destruct (ctrl_loop fx (S (length b1)) c2 b1) as [c3 r| |] eqn:Ec; cbn [of_cres]; try discriminate.
+    apply ctrl_frame2 in Ec. destruct Ec as (Q1 & Q2). intros H; inversion H; subst. split; congruence. }
+  destruct (t =? 1).
+  { destruct (push_parse (set_stype st0 (Some t)) b1) as [[st2 r]|].
+    - destruct (rq_recv fx O (c_client c2) (set_buf st2 r) [] fin) as [e3 s3| |]; cbn [of_rres]; try discriminate.
+      intros H; inversion H; subst. split; assumption.
+    - intros H; inversion H; subst. split; assumption. }
+  destruct (t =? 84).
+  { destruct (sess_parse (set_stype st0 (Some t)) b1) as [[st2 r]|]; intros H; inversion H; subst; split; assumption. }
+  destruct (t =? 3). { destruct (o_ds O b1); [|discriminate]. intros H; inversion H; subst. split; assumption. }
+  destruct (t =? 2). { destruct (o_enc O b1); [|discriminate]. intros H; inversion H; subst. split; assumption. }
+  intros H; inversion H; subst. split; assumption.
+Qed.
+
 End Conn.
